@@ -6,7 +6,7 @@ from ..tables import c08_conversions
 ID = 'C08'
 TECHNIQUE = 'explicit-state search of the accepted-number graph (E2) x presentation variants x conversion options; every conversion relation executed on every reached number'
 RULE = ('states = (conversion, valid source number, spelling): every relation of the conversion table x every valid number of '
-        'the source reached by E2 (and length variants) x spellings {compact, format(), spaces, hyphens}; oracle: the result is '
+        'the source reached by E2 (and length variants) x spellings {compact, format(), spaces, hyphens, results of format() with its options}; oracle: the result is '
         'valid in the target format(s), embeds the identity projection of the source, paired conversions undo each other and '
         'the spellings agree. non-trivial = conversions that returned a value.')
 ASSUMPTIONS = ['relations and identity projections: vp/tables/c08_conversions.py (closed list from the statement of C08)',
@@ -17,6 +17,16 @@ def plan(ctx):
     mods = core.modules()
     rows = c08_conversions.rows(mods)
     return [(i, ctx['tier']) for i in range(len(rows))]
+
+
+_ROWS = None
+
+
+def _rows(mods):
+    global _ROWS
+    if _ROWS is None:
+        _ROWS = c08_conversions.rows(mods)
+    return _ROWS
 
 
 def _call(f, *a):
@@ -56,7 +66,17 @@ def _eval(res, mods, row, idx, v, stats):
     if row.get('guard') and not row['guard'](v):
         return
     results = {}
-    for sname, s in spellings(m, v):
+    sp = spellings(m, v)
+    # chained operations: what the module's own format() with options (format='dec', add_check_digit=True ...)
+    # returns for v is one more presentation of v wherever validate() maps it back to v (only format(): a
+    # conversion such as it.aic.to_base32 is documented for one representation only)
+    for r2 in _rows(mods):
+        if r2['src'] == row['src'] and r2['tgt'] == row['src'] and r2['name'].startswith('format'):
+            o2 = _call(r2['conv'], m, v)
+            if o2[0] == 'ok' and isinstance(o2[1], str) and o2[1] != v and all(o2[1] != s_ for n_, s_ in sp):
+                if _call(m.validate, o2[1]) == ('ok', v):
+                    sp.append(('via:' + r2['name'], o2[1]))
+    for sname, s in sp:
         stats['n'] += 1
         o = _call(row['conv'], m, s)
         case = {'row': idx, 'src': row['src'], 'name': row['name'], 'number': s, 'canonical': v}
